@@ -27,6 +27,7 @@ func runC13(p *Program, r *Report) {
 	r.Rule("R13.1", "E4", 60, "printer coverage: for every AST struct type reachable from the data statements, every field is read by the type's Format method (or a method of the same receiver that Format calls); a field never printed is a clause/operand silently dropped from the re-serialised statement")
 	r.Rule("R13.2", "E4", 2, "precedence and literal carriers: ParenExpr.Format prints '(' Expr ')' ; SQLVal.Format has a case for every ValType constant and prints CastType")
 	r.Rule("R13.3", "E2", 5, "substitution edits values only: every store into a field of a sqlparser AST type made outside package sqlparser targets SQLVal.Val/Type (value substitution) or ComparisonExpr.Left/Right/Operator (the documented search rewrite); any other AST field store changes statement structure")
+	r.Rule("R13.4", "E2", 4, "literal escaping is byte-wise and total: in every SQL string-literal encoder (the functions of sqltypes that consult SQLEncodeMap) a byte of the value reaches the output only through the per-byte escape test (written raw only on the DontEscape edge), never through a bulk write of the value or of a slice of it; the escape table covers quote and backslash")
 	a := newSQLAST(p, r, "R13.1")
 	if a == nil {
 		return
@@ -34,6 +35,7 @@ func runC13(p *Program, r *Report) {
 	ruleR131(p, r, a)
 	ruleR132(p, r, a)
 	ruleR133(p, r, a)
+	ruleR134(p, r)
 }
 
 func ruleR131(p *Program, r *Report, a *sqlAST) {
@@ -205,6 +207,25 @@ func ruleR133(p *Program, r *Report, a *sqlAST) {
 				name := tn.Name() + "." + k.st.Field(k.idx).Name()
 				construct := "store " + name
 				if why, ok := allowed[name]; ok {
+					// operand/operator rewrites must build something new around the operand, never move or copy
+					// existing parts of the statement around
+					switch name {
+					case "ComparisonExpr.Left", "ComparisonExpr.Right":
+						v := stripConv(st.Val)
+						fresh := false
+						if al, isAlloc := v.(*ssa.Alloc); isAlloc && al.Heap && isSQLParserType(al.Type()) {
+							fresh = true
+						}
+						if !fresh {
+							r.Bad("R13.3", fnName(fn), construct, p.Pos(st.Pos()), "the operand of a parsed comparison is replaced by an existing value ("+v.String()+") instead of a freshly built substr/convert/value node: operands are moved around, so the forwarded statement no longer means what the client sent (e.g. `10 < price` becomes `price < 10`)")
+							continue
+						}
+					case "ComparisonExpr.Operator":
+						if _, isConst := st.Val.(*ssa.Const); !isConst {
+							r.Bad("R13.3", fnName(fn), construct, p.Pos(st.Pos()), "comparison operator replaced by a computed value")
+							continue
+						}
+					}
 					r.OK("R13.3", fnName(fn), construct, p.Pos(st.Pos()), why)
 				} else {
 					r.Bad("R13.3", fnName(fn), construct, p.Pos(st.Pos()), "a parsed statement's "+name+" is overwritten outside the parser: the re-serialised statement differs from the received one in more than the substituted values")
@@ -219,4 +240,164 @@ func init() {
 	mut("C13", "cast suffix dropped from literals", "sqlparser/ast_methods.go", "	if len(node.CastType) > 0 {\n		buf.Myprintf(\"%s\", node.CastType)\n	}\n}\n\nfunc (node *SQLVal) walkSubtree", "	if len(node.Val) > 1<<30 {\n		buf.Myprintf(\"%s\", node.Val)\n	}\n}\n\nfunc (node *SQLVal) walkSubtree", "R13.2", "field CastType")
 	mut("C13", "parentheses dropped", "sqlparser/ast_methods.go", "buf.Myprintf(\"(%v)\", node.Expr)", "buf.Myprintf(\"%v\", node.Expr)", "R13.2", "ParenExpr")
 	mut("C13", "searchable rewrite also edits the WHERE root", "hmac/decryptor/mysql/hashQuery.go", "			rVal.Type = sqlparser.HexNum\n", "			rVal.Type = sqlparser.HexNum\n			item.Expr.Escape = nil\n", "R13.3", "ComparisonExpr.Escape")
+}
+
+func ruleR134(p *Program, r *Report) {
+	pk := p.Pkg("sqlparser/dependency/sqltypes")
+	if pk == nil {
+		r.Anchor("R13.4", "sqlparser/dependency/sqltypes")
+		return
+	}
+	encMap, _ := p.SSAPkgs[pk.PkgPath].Members["SQLEncodeMap"].(*ssa.Global)
+	dontG, _ := p.SSAPkgs[pk.PkgPath].Members["DontEscape"].(*ssa.Global)
+	dontC, _ := p.Lookup("sqlparser/dependency/sqltypes.DontEscape").(*types.Const)
+	isDont := func(v ssa.Value) bool {
+		if c, ok := v.(*ssa.Const); ok && dontC != nil {
+			return constValueEq(c.Value, dontC.Val())
+		}
+		if u, ok := v.(*ssa.UnOp); ok && dontG != nil {
+			return u.X == ssa.Value(dontG)
+		}
+		return false
+	}
+	if encMap == nil || (dontG == nil && dontC == nil) {
+		r.Anchor("R13.4", "sqltypes.SQLEncodeMap / DontEscape")
+		return
+	}
+	// escape table covers the string delimiters
+	if ref, _ := p.Lookup("sqlparser/dependency/sqltypes.encodeRef").(*types.Var); ref == nil {
+		r.Anchor("R13.4", "sqltypes.encodeRef")
+	} else {
+		keys := map[string]bool{}
+		for _, f := range pk.Syntax {
+			ast.Inspect(f, func(n ast.Node) bool {
+				vs, ok := n.(*ast.ValueSpec)
+				if !ok || len(vs.Names) != 1 || pk.TypesInfo.Defs[vs.Names[0]] != types.Object(ref) || len(vs.Values) != 1 {
+					return true
+				}
+				if cl, ok := vs.Values[0].(*ast.CompositeLit); ok {
+					for _, e := range cl.Elts {
+						if kv, ok := e.(*ast.KeyValueExpr); ok {
+							if tv, ok := pk.TypesInfo.Types[kv.Key]; ok && tv.Value != nil {
+								keys[tv.Value.ExactString()] = true
+							}
+						}
+					}
+				}
+				return true
+			})
+		}
+		for _, need := range []struct{ name, val string }{{"single quote", "39"}, {"backslash", "92"}, {"NUL", "0"}} {
+			r.Check(keys[need.val], "R13.4", "sqlparser/dependency/sqltypes.encodeRef", "escapes "+need.name, p.Pos(ref.Pos()), "present in the escape table", need.name+" is no longer escaped in printed string literals: a value containing it ends the literal early")
+		}
+	}
+	n := 0
+	for _, fn := range p.SrcFuncs("sqlparser/dependency/sqltypes") {
+		if fn.Name() == "init" || strings.HasPrefix(fn.Name(), "init#") {
+			continue
+		}
+		uses := false
+		for _, b := range fn.Blocks {
+			for _, in := range b.Instrs {
+				for _, op := range in.Operands(nil) {
+					if *op == ssa.Value(encMap) {
+						uses = true
+					}
+				}
+			}
+		}
+		if !uses {
+			continue
+		}
+		var data *ssa.Parameter
+		for _, prm := range fn.Params {
+			if sl, ok := prm.Type().Underlying().(*types.Slice); ok {
+				if b, ok := sl.Elem().Underlying().(*types.Basic); ok && b.Kind() == types.Uint8 {
+					data = prm
+				}
+			}
+		}
+		if data == nil {
+			continue
+		}
+		n++
+		name := fnName(fn)
+		fromData := func(v ssa.Value) bool { return backClosure(v)[data] }
+		// the escape tests: If on (SQLEncodeMap[x] == DontEscape)
+		type test struct {
+			x     ssa.Value
+			plain *ssa.BasicBlock
+		}
+		var tests []test
+		for _, b := range fn.Blocks {
+			for _, in := range b.Instrs {
+				bo, ok := in.(*ssa.BinOp)
+				if !ok || (bo.Op != token.EQL && bo.Op != token.NEQ) {
+					continue
+				}
+				var look ssa.Value
+				if isDont(bo.Y) {
+					look = bo.X
+				} else if isDont(bo.X) {
+					look = bo.Y
+				}
+				u, ok := look.(*ssa.UnOp)
+				if !ok {
+					continue
+				}
+				ia, ok := u.X.(*ssa.IndexAddr)
+				if !ok || ia.X != ssa.Value(encMap) {
+					continue
+				}
+				for _, i := range ifsOn(bo) {
+					pl := i.Block().Succs[0]
+					if bo.Op == token.NEQ {
+						pl = i.Block().Succs[1]
+					}
+					tests = append(tests, test{stripConv(ia.Index), pl})
+				}
+			}
+		}
+		for _, cs := range callsIn(fn) {
+			cc := cs.Instr.Common()
+			mname := ""
+			if cc.IsInvoke() {
+				mname = cc.Method.Name()
+			} else if cs.Callee != nil {
+				mname = cs.Callee.Name()
+			}
+			args := cc.Args
+			if !cc.IsInvoke() && cs.Callee != nil && cs.Callee.Type().(*types.Signature).Recv() != nil && len(args) > 0 {
+				args = args[1:]
+			}
+			switch mname {
+			case "Write", "WriteString":
+				for _, a := range args {
+					if fromData(a) {
+						r.Bad("R13.4", name, mname+"("+operandText(p, cs.Instr)+")", p.Pos(cs.Instr.Pos()), "bytes of the literal's value are written to the output in bulk, bypassing the per-byte escape test: a quote or backslash inside the value is printed raw and ends the literal early (statement injection into the forwarded SQL)")
+					}
+				}
+			case "WriteByte":
+				if len(args) == 1 && fromData(args[0]) {
+					x := stripConv(args[0])
+					ok := false
+					for _, t := range tests {
+						if t.x == x && t.plain.Dominates(cs.Block) {
+							ok = true
+						}
+					}
+					// the escaped form: WriteByte(SQLEncodeMap[ch]) — derived from the table lookup, fine
+					if u, isU := x.(*ssa.UnOp); isU {
+						if ia, isIA := u.X.(*ssa.IndexAddr); isIA && ia.X == ssa.Value(encMap) {
+							ok = true
+						}
+					}
+					r.Check(ok, "R13.4", name, "WriteByte("+operandText(p, cs.Instr)+")", p.Pos(cs.Instr.Pos()), "raw byte written only on the DontEscape edge of its own escape test", "a value byte is written raw without its escape test having said DontEscape")
+				}
+			}
+		}
+	}
+	if n == 0 {
+		r.Bad("R13.4", "sqlparser/dependency/sqltypes", "encoders using SQLEncodeMap", "-", "no literal encoder consults the escape table any more")
+	}
 }
